@@ -1,5 +1,6 @@
 import DropletsVerif.Driver.Util
 import DropletsVerif.Model.Merge
+import DropletsVerif.Model.Label
 namespace DV.Drv
 open DV.Merge
 
@@ -15,6 +16,20 @@ def handleC02 (args : List String) : String :=
       if labels.length ≠ numCells shape then "bad-op" else
       let res := locateCells shape per labels
       "ok " ++ ";".intercalate (res.map fun (r, v, p) =>
+        toString r ++ ":" ++ showRat v ++ ":" ++ ",".intercalate (p.map showRat))
+    | _, _ => "bad-op"
+  | "mask" :: d :: rest =>
+    -- `c02 mask dim n_0.. p_0.. bits...`: the verified labeller followed by the merge loop
+    match d.toNat?, parseNats rest with
+    | some d, some vals =>
+      let shape := vals.take d
+      let per := ((vals.drop d).take d).map (· != 0)
+      let bits := (vals.drop (2 * d)).map (· != 0)
+      if bits.length ≠ numCells shape then "bad-op" else
+      let m := bits.toArray
+      let labels := DV.Label.labelExec shape fun c => m.getD c false
+      let res := locateCells shape per labels
+      "ok " ++ " ".intercalate (labels.map toString) ++ " | " ++ ";".intercalate (res.map fun (r, v, p) =>
         toString r ++ ":" ++ showRat v ++ ":" ++ ",".intercalate (p.map showRat))
     | _, _ => "bad-op"
   | _ => "bad-op"
